@@ -33,7 +33,8 @@ SCOPE_TAIL = '''
     mk = build({k: v for k, v in locals().items() if k in ('Loc', 'SelfA', 'SelfB')})
     recipe = op['recipe']
     if recipe[0] == 'ctor':
-        obj = cls(**{n: mk(t) for n, t in op['vals'].items()})
+        given = {n: mk(t) for n, t in op['vals'].items() if n not in op.get('omit', ())}
+        obj = cls(*given.values()) if op.get('positional') else cls(**given)
         return 'INSTANCE' if type(obj) is cls else 'OTHER'
     try:
         inst = cls(**{n: mk(t) for n, t in op['base'].items()})
@@ -75,6 +76,15 @@ def _nested():
 '''
 
 
+DEFAULTS = {'int': ['5', "'bad'", 'None'], 'str': ["'d'", '5'], 'float': ['1.5', "'x'"], 'bool': ['True', '0'], 'Optional[int]': ['None', '3', "'x'"],
+            'Union[int, str]': ['1', 'None'], 'Tuple[int, str]': ["(1, 'a')", '(1, 2)'], 'Tuple[int, ...]': ['()', "(1, 'x')"], 'Any': ['None'],
+            'int | None': ['None', "'x'"], 'Literal[1, 2]': ['1', '3'], 'List[int]': ['dataclasses.field(default_factory=list)',
+                                                                                     "dataclasses.field(default_factory=lambda: ['x'])"],
+            'list[int]': ['dataclasses.field(default_factory=lambda: [1, 2])'], 'Dict[str, int]': ['dataclasses.field(default_factory=dict)'],
+            'Set[int]': ['dataclasses.field(default_factory=set)'], 'P': ['P()', 'None'], 'Optional[P]': ['None', 'P()'],
+            "Optional['SelfA']": ['None'], "List['SelfA']": ['dataclasses.field(default_factory=list)'], "Optional['Loc']": ['None']}
+
+
 def gen_class(r, idx):
     nf = r.randint(1, 4)
     sub = r.choice(['none', 'none', 'deco_sub', 'deco_sub'])
@@ -82,7 +92,10 @@ def gen_class(r, idx):
     slots = r.random() < 0.3
     order = r.random() < 0.2
     post = r.choice(['absent'] * 4 + ['runs', 'runs', 'raises', 'nested'])
-    shortcut = ts and not slots and not order and r.random() < 0.3
+    kwonly = r.random() < 0.8            # kw_only=False: positional construction is possible
+    shortcut = ts and not slots and not order and kwonly and r.random() < 0.3
+    def dflt(a):
+        return (' = ' + r.choice(DEFAULTS[a])) if a in DEFAULTS and r.random() < 0.3 else ''
     local = r.random() < 0.22
     selfref = local or r.random() < 0.3
     an, bn = ('SelfA', 'SelfB') if selfref else (f'A{idx}', f'B{idx}')
@@ -90,10 +103,10 @@ def gen_class(r, idx):
         if local and r.random() < 0.4: return r.choice(LOCAL_POOL)
         return r.choice(pool) if selfref and r.random() < 0.6 else r.choice(POOL)[0]
     fields = [(f'f{i}', ann(SELF_POOL_A)) for i in range(nf)]
-    deco = '@frozen_type_safe_dataclass' if shortcut else f'@frozen_dataclass(type_safe={ts}, slots={slots}, order={order})'
+    deco = '@frozen_type_safe_dataclass' if shortcut else f'@frozen_dataclass(type_safe={ts}, slots={slots}, order={order}' + ('' if kwonly else ', kw_only=False') + ')'
     lines = [deco, f'class {an}:']
     for n, a in fields:
-        lines.append(f'    {n}: {a}')
+        lines.append(f'    {n}: {a}{dflt(a)}')
     if post == 'runs':
         lines += ['    def __post_init__(self):', f'        J.append(("post", {idx}))']
     if post == 'nested':
@@ -105,9 +118,9 @@ def gen_class(r, idx):
     if sub == 'deco_sub':
         ns = r.randint(1, 2)
         own = [(f'g{i}', ann(SELF_POOL_B)) for i in range(ns)]
-        lines += [f'@frozen_dataclass(type_safe={ts}, slots={slots})', f'class {bn}({an}):']
+        lines += [f'@frozen_dataclass(type_safe={ts}, slots={slots}' + ('' if kwonly else ', kw_only=False') + ')', f'class {bn}({an}):']
         for n, a in own:
-            lines.append(f'    {n}: {a}')
+            lines.append(f'    {n}: {a}{dflt(a)}')
         own_post = r.choice(['absent', 'absent', 'runs', 'raises'])      # the derived class may define its own __post_init__ (overrides the inherited one)
         if own_post == 'runs':
             lines += ['    def __post_init__(self):', f'        J.append(("post", {idx}))']
@@ -121,7 +134,7 @@ def gen_class(r, idx):
     if local:
         lines = ['def scope(op, build):', "    C1 = str     # decoy: the module's C1 must win", '    class Loc: pass'] + ['    ' + l for l in lines] + \
                 SCOPE_TAIL.replace('CLS', cls).splitlines()
-    return {'src': '\n'.join(lines) + '\n', 'cls': cls, 'ts': ts, 'post': post, 'idx': idx, 'selfref': selfref, 'local': local, 'levels': levels}
+    return {'src': '\n'.join(lines) + '\n', 'cls': cls, 'ts': ts, 'post': post, 'idx': idx, 'selfref': selfref, 'local': local, 'levels': levels, 'kwonly': kwonly}
 
 
 def load(src, tag):
@@ -157,9 +170,25 @@ def field_terms(cls):
     return [(f.name, K.reflect_ann(f.type)) for f in dataclasses.fields(cls)]
 
 
-def gen_ops(r, fterms):
+def default_terms(cls):
+    """{field name: term of the value the field takes when the constructor is not given one}"""
+    out = {}
+    for f in dataclasses.fields(cls):
+        if f.default is not dataclasses.MISSING:
+            t = K.reflect_val(f.default)
+        elif f.default_factory is not dataclasses.MISSING:
+            t = K.reflect_val(f.default_factory())
+        else:
+            continue
+        if t is not None and f.init:
+            out[f.name] = t
+    return out
+
+
+def gen_ops(r, fterms, defaults=None, positional=False):
     """abstract operations on one class: each is (path, values per field at validation time, how to reach them)"""
     ops = []
+    defaults = defaults or {}
     def good():
         out = {}
         for n, t in fterms:
@@ -182,6 +211,15 @@ def gen_ops(r, fterms):
     base = good()
     names = [n for n, _ in fterms]
     ops.append({'path': 'constructor', 'vals': dict(base), 'recipe': ['ctor']})
+    if defaults:                                    # omitted fields take their (conforming or non-conforming) defaults
+        for omit in ([list(defaults)] + ([[r.choice(list(defaults))]] if len(defaults) > 1 else [])):
+            v = dict(base)
+            for n in omit: v[n] = defaults[n]
+            ops.append({'path': 'constructor', 'vals': v, 'recipe': ['ctor'], 'omit': omit})
+    if positional:                                  # kw_only=False: the values are handed over positionally, in field order
+        ops.append({'path': 'constructor', 'vals': dict(base), 'recipe': ['ctor'], 'positional': True})
+        bn = r.choice(names); v = dict(base); v[bn] = corrupt(base[bn])
+        ops.append({'path': 'constructor', 'vals': v, 'recipe': ['ctor'], 'positional': True})
     for n in names:                                 # one bad field at each position, constructor
         v = dict(base); v[n] = corrupt(base[n])
         ops.append({'path': 'constructor', 'vals': v, 'recipe': ['ctor']})
@@ -239,7 +277,8 @@ def execute(mod, clsname, op, post):
     try:
         recipe = op['recipe']
         if recipe[0] == 'ctor':
-            obj = cls(**build(op['vals']))
+            given = {n: v for n, v in build(op['vals']).items() if n not in op.get('omit', ())}
+            obj = cls(*given.values()) if op.get('positional') else cls(**given)
             return {'out': 'INSTANCE' if type(obj) is cls else 'OTHER', 'journal': _posts(mod), 'inner': _inner(mod)}
         # an existing instance first (built without validation noise: if that already fails, report it)
         try:
@@ -329,7 +368,10 @@ def build_cases(rng, n, tag):
             wrapper = ['new_post_init', 'new_post_init', False, True]
             chains = [[wrapper, init], [init]] if C.get('levels') == 2 else [[init]]
             if C.get('local'):
-                names = mod.scope(None, None)
+                try:
+                    names = mod.scope(None, None)
+                except TypeError:
+                    continue                        # not a valid dataclass definition (field order with kw_only=False)
                 cls = names[C['cls']]
                 env, locs = local_env(names, C['cls'])
                 extra = {'locals': locs, 'caller': 'scope', 'chains': chains}
@@ -342,7 +384,7 @@ def build_cases(rng, n, tag):
             K.EXTRA_CTX.clear()
             K.EXTRA_CTX.update({n: getattr(K, n) for n in present})
             try:
-                ops = gen_ops(rng, fterms)
+                ops = gen_ops(rng, fterms, default_terms(cls), positional=not C.get('kwonly', True))
             finally:
                 K.EXTRA_CTX.clear()
             for op in ops:
